@@ -1795,7 +1795,7 @@ Proof.
     rewrite Es in E4. destruct (s_schema s') as [[q'|]|]; cbn in E4; try discriminate. injection E4 as ->.
     rewrite E2, Ef, Ek, E3, E2.
     pose proof (find_type_In _ _ _ Ef) as [Hqt Eqt].
-    destruct (run_checks_spec (doc_types d) Uq D EF (existsb_false_forall _ _ B2) qt Hqt) as [r [Er Pr]].
+    destruct (run_checks_spec (doc_types d) Uq D EF qt Hqt) as [r [Er Pr]].
     exists r. split; [exact Er|]. rewrite Pr, (checks_iff_rules (doc_types d) Uq (existsb_false_forall _ _ B2) qt Hqt).
     unfold valid_schema. split.
     + intros R. exists q, qt. auto.
@@ -1808,4 +1808,180 @@ Proof.
     intros [q' [root [_ [_ [_ [_ R]]]]]]. exfalso. apply Uq. split.
     + exact (r_unique_types _ _ R).
     + exact (r_unique_fields _ _ R).
+Qed.
+
+Theorem schema_new_total d : ~ Known d -> exists r, schema_new d = Ok r.
+Proof.
+  intros K. unfold Known in K. destruct (known d) eqn:E; [now destruct K|].
+  destruct (schema_new_spec d E) as [r [H _]]. eauto.
+Qed.
+
+Theorem schema_new_exact d : ~ Known d -> (schema_new d = Ok [] <-> valid_schema d).
+Proof.
+  intros K. unfold Known in K. destruct (known d) eqn:E; [now destruct K|].
+  destruct (schema_new_spec d E) as [r [H P]]. rewrite H. rewrite <- P. split; [now intros [= ->] | now intros ->].
+Qed.
+
+(* a panic only happens inside the known classes *)
+Corollary schema_new_panic_known d site : schema_new d = Panic site -> Known d.
+Proof.
+  intros H. unfold Known. destruct (known d) eqn:E; [reflexivity|].
+  destruct (schema_new_spec d E) as [r [H' _]]. congruence.
+Qed.
+
+(* ---------- fuel ---------- *)
+Lemma fo_loop_fuel_mono fuel : forall k ts origins queue req r,
+  fo_loop fuel ts origins queue req = Ok r -> fo_loop (fuel + k) ts origins queue req = Ok r.
+Proof.
+  induction fuel as [|fuel IH]; intros k ts origins queue req r H; [discriminate|].
+  cbn [Nat.add fo_loop] in *. destruct queue as [|tn q]; [exact H|].
+  destruct (find_type tn ts) as [defn|]; [|discriminate].
+  destruct (inherited_origins ts origins defn) as [inh|]; [|discriminate]. cbn [bind] in *.
+  destruct (own_origins tn defn inh origins) as [oo|]; [|discriminate]. cbn [bind] in *.
+  destruct (release_waiters tn (resolvers_of ts tn) q req) as [qr|]; [|discriminate]. cbn [bind] in *.
+  now apply IH.
+Qed.
+
+(* |types| + 1 iterations always suffice (names unique), and more fuel never changes the result *)
+Theorem fo_fuel_adequate ts : uniq ts ->
+  exists r, fo_loop (fo_fuel ts) ts [] (initial_queue ts) (required_resolutions ts) = Ok r /\
+            forall k, fo_loop (fo_fuel ts + k) ts [] (initial_queue ts) (required_resolutions ts) = Ok r.
+Proof.
+  intros U.
+  destruct (fo_loop_spec ts U (fo_fuel ts) [] [] (initial_queue ts) (required_resolutions ts) (inv_init ts U))
+    as [done [origins [req [E _]]]].
+  { unfold fo_fuel. cbn. lia. }
+  exists (origins, req). split; [exact E|]. intros k. now apply fo_loop_fuel_mono.
+Qed.
+
+(* ---------- the two readings of "no implementation cycles" ---------- *)
+Lemma acyclic_no_self_reach ts : acyclic ts -> forall n, ~ reaches ts n n.
+Proof.
+  intros [rank Hr].
+  assert (G : forall a b, reaches ts a b -> rank b < rank a).
+  { intros a b H. induction H as [t i Ht Hi Hd|a b c _ IH1 _ IH2]; [now apply Hr | lia]. }
+  intros n H. apply G in H. lia.
+Qed.
+
+(* ====================================================================================== *)
+(* 7. Witnesses: the known classes panic; a non-trivial valid schema; rejected schemas       *)
+(* ====================================================================================== *)
+Definition w_Q : tdef := mkT "Q" VObject [] [mkFld "t" [] (GNamed "T" true)].
+Definition w_T : tdef := mkT "T" VObject [] [mkFld "a" [] (GNamed "Int" true)].
+Definition w_head : doc := [DSchema (Some "Q"); DType w_Q; DType w_T].
+Fixpoint nest (n : nat) (g : gty) : gty := match n with O => g | S k => GList (nest k g) true end.
+
+Definition w_empty : doc := [].
+Definition w_no_schema : doc := [DType w_Q; DType w_T].
+Definition w_dup_schema : doc := w_head ++ [DSchema (Some "Q")].
+Definition w_no_query : doc := [DSchema None; DType w_Q; DType w_T].
+Definition w_builtin_scalar : doc := w_head ++ [DScalar "Int"].
+Definition w_builtin_object : doc := w_head ++ [DType (mkT "String" VObject [] [mkFld "x" [] (GNamed "Int" true)])].
+Definition w_dup_scalar : doc := w_head ++ [DScalar "Date"; DScalar "Date"].
+Definition w_dup_directive : doc := w_head ++ [DDirective "d"; DDirective "d"].
+Definition w_undefined_query : doc := [DSchema (Some "Q"); DType w_T].
+Definition w_interface_query : doc :=
+  [DSchema (Some "Q"); DType (mkT "Q" VInterface [] [mkFld "t" [] (GNamed "T" true)]); DType w_T].
+Definition w_list_depth : doc :=
+  [DSchema (Some "Q"); DType w_Q; DType (mkT "T" VObject [] [mkFld "a" [] (nest 31 (GNamed "Int" true))])].
+Definition w_enum_default : doc :=
+  [DSchema (Some "Q");
+   DType (mkT "Q" VObject [] [mkFld "t" [mkArg "x" (GNamed "Int" true) (Default (Enum "FOO"))] (GNamed "T" true)]);
+   DType w_T].
+
+Definition panics (d : doc) : Prop := exists site, schema_new d = Panic site.
+
+Lemma w_empty_panics : k_no_schema_block w_empty = true /\ panics w_empty.
+Proof. split; [reflexivity | eexists; vm_compute; reflexivity]. Qed.
+Lemma w_no_schema_panics : k_no_schema_block w_no_schema = true /\ panics w_no_schema.
+Proof. split; [reflexivity | eexists; vm_compute; reflexivity]. Qed.
+Lemma w_dup_schema_panics : k_dup_schema_block w_dup_schema = true /\ panics w_dup_schema.
+Proof. split; [reflexivity | eexists; vm_compute; reflexivity]. Qed.
+Lemma w_no_query_panics : k_schema_without_query w_no_query = true /\ panics w_no_query.
+Proof. split; [reflexivity | eexists; vm_compute; reflexivity]. Qed.
+Lemma w_builtin_scalar_panics : k_builtin_scalar_redeclared w_builtin_scalar = true /\ panics w_builtin_scalar.
+Proof. split; [reflexivity | eexists; vm_compute; reflexivity]. Qed.
+Lemma w_builtin_object_panics : k_builtin_scalar_redeclared w_builtin_object = true /\ panics w_builtin_object.
+Proof. split; [reflexivity | eexists; vm_compute; reflexivity]. Qed.
+Lemma w_dup_scalar_panics : k_dup_scalar w_dup_scalar = true /\ panics w_dup_scalar.
+Proof. split; [reflexivity | eexists; vm_compute; reflexivity]. Qed.
+Lemma w_dup_directive_panics : k_dup_directive w_dup_directive = true /\ panics w_dup_directive.
+Proof. split; [reflexivity | eexists; vm_compute; reflexivity]. Qed.
+Lemma w_undefined_query_panics : k_undefined_query_type w_undefined_query = true /\ panics w_undefined_query.
+Proof. split; [reflexivity | eexists; vm_compute; reflexivity]. Qed.
+Lemma w_interface_query_panics : k_interface_query_type w_interface_query = true /\ panics w_interface_query.
+Proof. split; [reflexivity | eexists; vm_compute; reflexivity]. Qed.
+Lemma w_list_depth_panics : k_list_depth w_list_depth = true /\ panics w_list_depth.
+Proof. split; [reflexivity | eexists; vm_compute; reflexivity]. Qed.
+Lemma w_enum_default_panics : k_enum_default w_enum_default = true /\ panics w_enum_default.
+Proof. split; [reflexivity | eexists; vm_compute; reflexivity]. Qed.
+
+(* the unrestricted statement "Schema::new never panics" is false *)
+Lemma schema_new_never_panics_refuted : ~ (forall d, exists r, schema_new d = Ok r).
+Proof. intros H. destruct (H w_no_schema) as [r Hr]. vm_compute in Hr. discriminate. Qed.
+
+(* A valid schema: 4 vertex types + root; interface hierarchy Named <- Entity <- {Person, Robot} with
+   transitive implements, a narrowed inherited edge (friend: Entity -> Person!), narrowed property
+   nullability, parameters with defaults (contravariantly widened in the implementer), several entry
+   points, a custom scalar and directive definitions. *)
+Definition ex_named : tdef :=
+  mkT "Named" VInterface [] [mkFld "name" [] (GNamed "String" true)].
+Definition ex_entity : tdef :=
+  mkT "Entity" VInterface ["Named"]
+    [mkFld "name" [] (GNamed "String" true);
+     mkFld "id" [] (GNamed "Int" false);
+     mkFld "friend" [mkArg "min" (GNamed "Int" false) (Default (I64 1));
+                     mkArg "tags" (GList (GNamed "String" false) true) NoDefault]
+           (GList (GNamed "Entity" true) true)].
+Definition ex_person : tdef :=
+  mkT "Person" VObject ["Entity"; "Named"]
+    [mkFld "name" [] (GNamed "String" false);
+     mkFld "id" [] (GNamed "Int" false);
+     mkFld "friend" [mkArg "tags" (GList (GNamed "String" false) true) (Default (List [Str "a"; Str "b"]));
+                     mkArg "min" (GNamed "Int" true) (Default Null)]
+           (GList (GNamed "Person" false) false);
+     mkFld "scores" [] (GList (GList (GNamed "Float" true) false) true)].
+Definition ex_robot : tdef :=
+  mkT "Robot" VObject ["Named"; "Entity"]
+    [mkFld "id" [] (GNamed "Int" false);
+     mkFld "name" [] (GNamed "String" true);
+     mkFld "friend" [mkArg "min" (GNamed "Int" false) (Default (U64 7));
+                     mkArg "tags" (GList (GNamed "String" false) true) (Default Null)]
+           (GList (GNamed "Entity" true) true);
+     mkFld "owner" [] (GNamed "Person" true)].
+Definition ex_root : tdef :=
+  mkT "RootSchemaQuery" VObject []
+    [mkFld "Entity" [mkArg "first" (GNamed "Int" true) (Default (I64 10))] (GList (GNamed "Entity" false) false);
+     mkFld "Person" [] (GList (GNamed "Person" false) true);
+     mkFld "Robot" [mkArg "ids" (GList (GNamed "Int" false) false) (Default (List []))] (GNamed "Robot" true)].
+Definition ex_valid : doc :=
+  [DDirective "filter"; DDirective "output"; DScalar "Date";
+   DType ex_person; DType ex_named; DSchema (Some "RootSchemaQuery");
+   DType ex_root; DType ex_robot; DType ex_entity].
+
+Lemma ex_valid_unknown : ~ Known ex_valid.
+Proof. unfold Known. vm_compute. discriminate. Qed.
+Lemma ex_valid_accepted : schema_new ex_valid = Ok [].
+Proof. vm_compute. reflexivity. Qed.
+Lemma ex_valid_valid : valid_schema ex_valid.
+Proof. apply (schema_new_exact ex_valid ex_valid_unknown). exact ex_valid_accepted. Qed.
+
+(* the same schema with Person's friend edge widened back to a nullable list: rejected, and invalid *)
+Definition ex_person_bad : tdef :=
+  mkT "Person" VObject ["Entity"]
+    [mkFld "name" [] (GNamed "String" false);
+     mkFld "id" [] (GNamed "Int" true);
+     mkFld "friend" [mkArg "min" (GNamed "Int" false) NoDefault]
+           (GList (GNamed "Person" false) false)].
+Definition ex_invalid : doc :=
+  [DType ex_person_bad; DType ex_named; DSchema (Some "RootSchemaQuery"); DType ex_root; DType ex_robot; DType ex_entity].
+Lemma ex_invalid_rejected :
+  ~ Known ex_invalid /\
+  show_schema_result (schema_new ex_invalid) =
+  "ERR:MissingTransitive(Person,Entity,Named)|Widening(id,Person,Entity,Int,Int!)|MissingParams(friend,Person,Entity,[tags])"
+  /\ ~ valid_schema ex_invalid.
+Proof.
+  assert (K : ~ Known ex_invalid) by (unfold Known; vm_compute; discriminate).
+  split; [exact K|]. split; [vm_compute; reflexivity|].
+  intros V. apply (schema_new_exact ex_invalid K) in V. vm_compute in V. discriminate.
 Qed.
